@@ -50,8 +50,35 @@ def g4(s1=dflt(1), s2=dflt(2), s3=dflt(3)):
   return _rec(4, s1, s2, s3)
 
 
+class Maker:
+  """Alternate constructors: classmethods are equal but not identical on every access."""
+
+  @classmethod
+  def make(cls, s1=dflt(1), s2=dflt(2), s3=dflt(3)):
+    return _rec(1, s1, s2, s3)
+
+
 FNS = {1: f1, 2: ClsA, 3: ClsB, 4: g4}
 FN_ID = {id(v): k for k, v in FNS.items()}
+FN_VARIANT = 0     # 1: callable 1 is the classmethod Maker.make, looked up afresh every time
+
+
+def fn_obj(i):
+  if FN_VARIANT == 1 and i == 1:
+    return Maker.make
+  return FNS[i]
+
+
+def fn_id_of(fn):
+  k = FN_ID.get(id(fn))
+  if k is not None:
+    return k
+  try:
+    if fn == Maker.make:
+      return 1
+  except Exception:  # pylint: disable=broad-except
+    pass
+  return -1
 
 NT2 = collections.namedtuple('NT2', ['n0', 'n1'])
 
@@ -108,7 +135,7 @@ class Realizer:
     self.heap = heap
     self.objs = {}
     self.types = buildable_types or {'config': fdl.Config, 'partial': fdl.Partial}
-    self.fn_for = fn_for or (lambda i, o: FNS[o['fn']])
+    self.fn_for = fn_for or (lambda i, o: fn_obj(o['fn']))
 
   def val(self, v):
     if v > 0:
@@ -169,7 +196,7 @@ class Projector:
     if isinstance(x, bool) or x is None:
       return ['?', repr(x)]
     if isinstance(x, int):
-      return x
+      return LEAF_BACK.get(x, x) if LEAF_BACK else x
     if isinstance(x, str):
       if x in LEAF_BACK:
         return LEAF_BACK[x]
@@ -187,7 +214,7 @@ class Projector:
       node['k'] = ('partial' if isinstance(x, fdl.Partial) else
                    'argfactory' if isinstance(x, fdl.ArgFactory) else
                    'tagged' if isinstance(x, config_lib.TaggedValueCls) else 'config')
-      node['fn'] = 0 if node['k'] == 'tagged' else FN_ID.get(id(x.__fn_or_cls__), -1)
+      node['fn'] = 0 if node['k'] == 'tagged' else fn_id_of(x.__fn_or_cls__)
       args = dict(fdl.ordered_arguments(x))
       for n, ts in x.__argument_tags__.items():
         if ts and n not in args:
